@@ -305,9 +305,7 @@ def ref_parse(text, max_data_lines=None):
         ref.doubts.append('header names a channel twice')
     rows = []
     for number, toks in data_lines:
-        if not toks:
-            ref.doubts.append('blank line in section 3')
-            continue
+        # a blank line after the header is a data line with no fields: it does not match the header
         if len(toks) != len(header):
             return ref.reject('field_count', 'line %d has %d fields, the header %d names' % (number, len(toks), len(header)))
         rows.append((number, toks))
